@@ -68,7 +68,9 @@ fn dist_fn(table: &HashMap<(u32, u32), f32>, mode: u8, a: &[u32], b: &[u32]) -> 
     match mode {
         0 => mn,
         1 => mx,
-        _ => mn + f32::from((a.len() + b.len()) as u16) / 64.0,
+        2 => mn + f32::from((a.len() + b.len()) as u16) / 64.0,
+        // shrinks when sets grow: under union linkage a later merge can be closer than an earlier one
+        _ => mn / f32::from((a.len() + b.len()) as u16),
     }
 }
 
@@ -129,7 +131,7 @@ pub fn cases(rng: &mut Rng, count: usize, tier: &str) -> Vec<Case> {
             }
         }
         let method = rng.below(4) as u8;
-        let mode = rng.below(3) as u8;
+        let mode = rng.below(4) as u8;
         let log: RefCell<Vec<Vec<(Vec<u32>, Vec<u32>)>>> = RefCell::new(vec![]);
         let cb = |combs: Combinations<HpoSet<'_>>| -> Vec<f32> {
             let mut pairs = vec![];
